@@ -140,7 +140,7 @@ def value_for(draw, cname, pname, param, classes, depth):
     if pname == "dt":
         return ("val", draw(st.one_of(fl(0.1, 5.0), st.sampled_from([0.5, 2.0, 0.1, 3.3]))))
     if pname in ("bias_towards_insert", "probability"):
-        return ("val", draw(fl(0.05, 0.95)))
+        return ("val", draw(st.one_of(fl(0.05, 0.95), st.sampled_from([0.0, 1.0]))))
     if pname in ("max_steps", "interval"):
         return ("val", draw(st.integers(1, 50)))
     if pname == "minimum_count":
@@ -227,11 +227,11 @@ def instance_desc(draw, classes, family, depth, cname=None):
         for t, (kind, _d) in TUNABLES.items():
             if draw(st.booleans()):
                 if kind == "int":
-                    tun[t] = draw(st.integers(1, 500))
+                    tun[t] = draw(st.one_of(st.integers(1, 500), st.sampled_from([0, 1])))
                 elif kind == "label":
                     tun[t] = draw(st.sampled_from([None, -1, 0, 3]))
                 else:
-                    tun[t] = draw(fl(0.05, 0.95))
+                    tun[t] = draw(st.one_of(fl(0.05, 0.95), st.sampled_from([0.0, 1.0])))
     return {"cls": cname, "args": args, "tun": tun}
 
 
